@@ -585,6 +585,11 @@ func (r *Request) reply(payload []byte) {
 	err := r.s.nc.Publish(r.msg.Reply, payload)
 	if err != nil {
 		r.s.errorf("Error sending reply %s: %s", r.msg.Subject, err)
+		if errors.Is(err, nats.ErrMaxPayload) {
+			// The response is too large for the NATS server to accept.
+			// Let the requester know rather than leaving it to time out.
+			r.s.nc.Publish(r.msg.Reply, responseInternalError)
+		}
 	}
 }
 
